@@ -350,15 +350,23 @@ func scenSvcContext(seed uint64, e *svcEnv, idx int, directed string) {
 			}
 		}
 	}
-	// requests sent by the service have consecutive ids starting at 0
-	next := uint32(0)
+	// requests sent by the service carry pairwise distinct ids 0..n-1 (allocated
+	// under the service mutex; concurrent callbacks may reach the pipe in any order)
+	seenReq := map[uint32]bool{}
+	nreq := 0
 	for _, ev := range tr {
 		if ev.Kind == "sreq" {
-			if ev.ID != next {
-				e.st.Fail("service-request-ids-not-consecutive", desc, fmt.Sprintf("service request id %d, expected %d", ev.ID, next), "ids 0,1,2,... so that responses pair up")
-				break
+			if seenReq[ev.ID] {
+				e.st.Fail("service-request-id-reused", desc, fmt.Sprintf("service request id %d used twice", ev.ID), "distinct ids so that responses pair up")
 			}
-			next++
+			seenReq[ev.ID] = true
+			nreq++
+		}
+	}
+	for id := range seenReq {
+		if int(id) >= nreq {
+			e.st.Fail("service-request-id-reused", desc, fmt.Sprintf("service request id %d with only %d requests sent", id, nreq), "ids 0..n-1")
+			break
 		}
 	}
 	s.mu.Unlock()
